@@ -248,9 +248,52 @@ def run(ctx):
     # debug assertions are a profile switch of their own (on in dev, off in release): decided in every tier
     FD = ctx.F("D")
     only_a2, only_d, diff_d, common_d = CD.diff(FA, FD)
+    # a body that differs only in the value of `cfg!(debug_assertions)` (debug_assert!) is no divergence if the assertion cannot
+    # fire: the debug-only blocks have no effects of their own, and every panic site the debug build has in addition is discharged
+    # by the facts at the site (on the INLINEd instances, i.e. in the callers' context)
+    explained = []
+    if diff_d and not only_d and not only_a2:
+        from .. import purity as PU
+
+        def pure_call(t_):
+            fr_ = M.callee_of(t_)
+            p_ = ((fr_ or {}).get("res") or {}).get("path") or (fr_ or {}).get("path") or ""
+            return p_.startswith(PU.PURE_STD_PREFIXES)
+        shapes_ok = True
+        for k_ in diff_d:
+            ok_, why_, _blocks = CD.debug_only_difference(FA.fns[k_], FD.fns[k_], pure_call)
+            if not ok_:
+                shapes_ok = False
+                explained.append("%s: %s" % (k_.split("::")[-1], why_))
+        if shapes_ok:
+            # the additional panic sites of the debug build, per instance whose (INLINEd) body differs
+            open_sites = []
+            n_new = 0
+            for ik, inst_d in FD.insts.items():
+                inst_a = FA.insts.get(ik)
+                if inst_a is None or CD.body_hash(inst_a) == CD.body_hash(inst_d):
+                    continue
+                # the same analysis on the INLINEd instance gives the debug-only blocks in the caller's context; the assertion's
+                # code is in both bodies (dead under `if false` without debug assertions), so only sites in those blocks count
+                ok_i, why_i, dbg_blocks = CD.debug_only_difference(inst_a, inst_d, pure_call)
+                if not ok_i:
+                    open_sites.append("%s: %s" % (ik[-60:], why_i))
+                    continue
+                for s_ in P.sites_of(FD, inst_d):
+                    if s_.bb in dbg_blocks:
+                        n_new += 1
+                        if s_.status != "discharged":
+                            open_sites.append(s_.key()[:160])
+            if not open_sites:
+                ctx.ok("CD", "A-vs-D:debug-assertions", "the %d bodies that differ with debug assertions enabled differ only in `cfg!(debug_assertions)` "
+                       "constants, their debug-only blocks have no effects, and the %d panic / arithmetic sites in those blocks cannot fire" % (len(diff_d), n_new), "",
+                       how="; ".join(sorted(x.split("::")[-1] for x in diff_d))[:200])
+                diff_d = []
+            else:
+                explained.append("debug-only assertions that are not discharged: %s" % open_sites[:4])
     ctx.check(not diff_d and not only_d and not only_a2, "CD", "A-vs-D",
               "bodies identical with debug assertions enabled: no debug_assert!/cfg!(debug_assertions) in the crates (%d bodies)" % common_d, "",
-              how="hash-equal", why="differing: %s; only with: %s; only without: %s" % (diff_d[:8], only_d[:4], only_a2[:4]))
+              how="hash-equal", why="differing: %s; only with: %s; only without: %s; %s" % (diff_d[:8], only_d[:4], only_a2[:4], "; ".join(explained)[:400]))
     if ctx.tier == "thorough":
         FC = ctx.F("C")
         _, only_c, diff_c, common_c = CD.diff(FA, FC)
